@@ -501,8 +501,20 @@ def collect(ctx, rep, ml, fmt):
             continue
         o0 = observe(ml, fmt, text)
         if o0[0] != "ok":
-            # the undamaged text itself is rejected (e.g. a bundled file the reader does not support): nothing to compare with
-            rep.count(f"{fmt}:base-rejected:{bname}")
+            # the undamaged text itself is rejected: nothing to damage, but the model must agree that it is rejected
+            # (a reader that starts refusing what molli writes must not make this check pass with no coverage)
+            rep.count(f"{fmt}:base-rejected")
+            rep.case(key=f"{fmt}:{bname}:rejected", sample={"fmt": fmt, "base": bname, "outcome": o0[1]})
+            if o0[0] == "err":
+                base_lines.append(lines)
+                cases.append(f"({cq_nat(len(base_lines) - 1)}, DNone, OErr)")
+                meta.append((bname, ("none",), "none", "err:" + str(o0[1])))
+                if fmt == "mol2":
+                    for l in lines:
+                        tokens.update(t for t in l.split() if not floatlike(t))
+            else:
+                rep.violate(f"C10:{fmt}:none:no-termination", f"reader did not return on the undamaged text {bname}",
+                            {"fmt": fmt, "lines": lines, "damage": ["none"], "kind": "none"})
             continue
         orig = o0[1]
         owner = xyz_block_of_line(lines) if fmt == "xyz" else mol2_block_of_line(lines)
@@ -530,6 +542,8 @@ def collect(ctx, rep, ml, fmt):
 
 
 def run(ctx, rep):
+    import warnings
+    warnings.simplefilter("ignore")
     import molli as ml
     rep.rule = ("bundled + generated xyz/mol2 texts x damage operators: every line boundary, every byte offset of the last "
                 "line, line deletions, duplications, token corruptions; a case is non-trivial when the text was actually "
